@@ -120,7 +120,7 @@ func genSteps(t *rapid.T, nseq, attempts int, statuses []int, inCond func(int) b
 	// raw, independent draws per step (so that rapid can delete steps while shrinking) ...
 	type raw struct {
 		Seq, First, NC, In, Status, Park, Adv int
-		Reuse                             bool
+		Reuse                                 bool
 	}
 	raws := rapid.SliceOfN(rapid.Custom(func(t *rapid.T) raw {
 		r := raw{
@@ -288,7 +288,9 @@ func (j *judge) observe(i int, e event, verdict string) string {
 		// the defect machine predicts every verdict of this sequence so far, and the history of the
 		// sequence contains the defect's trigger (see machine.armed)
 		attributable := okD && j.D.armed[e.Seq]
-		if attributable && r.KnownFinding(j.finding, func() any { return map[string]any{"case": j.c, "step": i, "verdict": verdict, "statement_admits": wants} }) {
+		if attributable && r.KnownFinding(j.finding, func() any {
+			return map[string]any{"case": j.c, "step": i, "verdict": verdict, "statement_admits": wants}
+		}) {
 			r.Class("attributed-to-" + j.finding)
 		} else {
 			asked := ""
@@ -826,7 +828,7 @@ func TestFixedHistories(t *testing.T) {
 		for i := 0; i < n; i++ {
 			s = append(s, step{Seq: 0, Status: in})
 		}
-		s = append(s, step{Seq: 1, Status: out})                           // ends sequence 1
+		s = append(s, step{Seq: 1, Status: out})                            // ends sequence 1
 		s = append(s, step{Seq: 2, NewCall: true, IDEq: true, Status: out}) // never retried
 		return s
 	}
